@@ -266,7 +266,7 @@ func (p *Pred) Text() string {
 // numeric meaning tables: label values whose parse is tabulated, so the oracle re-implements no parser.
 var (
 	numValues = map[string]float64{"200": 200, "404": 404, "500": 500, "0": 0, "-3": -3, "1.5": 1.5, "1e3": 1000, "42": 42, "3": 3, "007": 7, "+5": 5}
-	numBad    = []string{"abc", "12abc", "1.2.3", "--1", "ten", "info", "warn", "error", "ERROR", "", "debug"}
+	numBad    = []string{"abc", "12abc", "1.2.3", "--1", "ten", "info", "warn", "error", "ERROR", "", "debug", "true", "false"} // true/false: JSON booleans exposed by | json
 	durValues = map[string]time.Duration{"150ms": 150 * time.Millisecond, "2s": 2 * time.Second, "1m30s": 90 * time.Second, "1h": time.Hour, "0s": 0, "1.5s": 1500 * time.Millisecond, "250us": 250 * time.Microsecond, "3m": 3 * time.Minute}
 	durBad    = []string{"bad", "5", "1 s", "s", "1d2", "info", "warn", "error", "ERROR", "", "debug"}
 	bytValues = map[string]uint64{"10KB": 10000, "1MiB": 1048576, "512": 512, "1.5KB": 1500, "42B": 42, "2MB": 2000000, "1KiB": 1024, "0": 0}
@@ -657,6 +657,31 @@ func stLabelTemplate(dst string, t Tmpl) Stage {
 			return true
 		}
 		e.L[dst] = v
+		return true
+	})
+}
+
+// stLabelTemplates: several template assignments in one stage. The destinations are fresh names no
+// template refers to, so whether a later template sees an earlier one's result does not matter;
+// each template that fails flags the line, the others still set their destination.
+func stLabelTemplates(dsts []string, ts []Tmpl) Stage {
+	var parts []string
+	for i := range dsts {
+		parts = append(parts, dsts[i]+"="+quoteLogQL(ts[i].Text))
+	}
+	return stateless("label_format-template", "| label_format "+strings.Join(parts, ", "), func(e *Ent) bool {
+		vals := make([]string, len(ts))
+		oks := make([]bool, len(ts))
+		for i, t := range ts {
+			vals[i], oks[i] = t.Eval(e)
+		}
+		for i := range ts {
+			if !oks[i] {
+				e.flag()
+				continue
+			}
+			e.L[dsts[i]] = vals[i]
+		}
 		return true
 	})
 }
